@@ -23,6 +23,22 @@ static Misc miscOf(int v)
 {
     static const Misc table[] = {{0, 1, 1, 0, 2, 0}, {1, 1, 1, 1, 1, 2}, {2, 2, 1, 2, 0, 1}, {0, 1, 2, 1, 3, 0},
                                  {2, 1, 1, 0, 1, 1}, {1, 2, 2, 2, 2, 2}};
+    if (v >= 1000) { // mixed radix: cycle(3) pre(2) post(2) norm(3) fmgIts(4) fmgCycle(3)
+        int x = v - 1000;
+        Misc m;
+        m.cycle    = x % 3;
+        x /= 3;
+        m.pre = 1 + x % 2;
+        x /= 2;
+        m.post = 1 + x % 2;
+        x /= 2;
+        m.norm = x % 3;
+        x /= 3;
+        m.fmgIts = x % 4;
+        x /= 4;
+        m.fmgCycle = x % 3;
+        return m;
+    }
     return table[((v % 6) + 6) % 6];
 }
 static const double ABS_TOL = 1e-7, REL_TOL = 1e-6;
@@ -146,9 +162,9 @@ int main(int argc, char** argv)
         gmgpolar_verif::sink() = trace;
         const auto& o = c["ctor"];
         auto B        = [&](const char* n) { return (int)o[n].boolean(); };
-        event("Ctor", "\"case\":%d,\"ext\":%d,\"fmg\":%d,\"L\":%d,\"take\":%d,\"caches\":%d,\"maxIter\":%d,\"absOn\":%d,\"relOn\":%d,"
+        event("Ctor", "\"c01\":%d,\"case\":%d,\"ext\":%d,\"fmg\":%d,\"L\":%d,\"take\":%d,\"caches\":%d,\"maxIter\":%d,\"absOn\":%d,\"relOn\":%d,"
                       "\"exact\":%d,\"misc\":%d",
-              c["id"].num(), o["ext"].num(), B("fmg"), o["L"].num(), B("take"), B("caches"), o["maxIter"].num(),
+              c.has("c01") ? c["c01"].num() : 0, c["id"].num(), o["ext"].num(), B("fmg"), o["L"].num(), B("take"), B("caches"), o["maxIter"].num(),
               B("absOn"), B("relOn"), B("exact"), o["misc"].num());
         std::vector<std::pair<std::string, int>> optHistory;
         bool exactOn = o["exact"].boolean();
